@@ -26,6 +26,17 @@ type dMethod struct {
 	Calls  []int  `json:"calls"` // rows that contain a call of it
 }
 
+// nParams is the number of parameters the generator gives a method of a form.
+func (m *dMethod) nParams() int {
+	switch m.Form {
+	case "multi", "endless-multi":
+		return 2
+	case "twin-static":
+		return 3
+	}
+	return 1
+}
+
 type dCase struct {
 	Source  string    `json:"source"`
 	Methods []dMethod `json:"methods"`
@@ -61,7 +72,7 @@ func genDefs(r *RNG) *dCase {
 		var hidden []int // private/protected instance methods of this class
 		nm := 2 + r.Intn(5)
 		for k := 0; k < nm; k++ {
-			form := Pick(r, []string{"inst", "inst", "inst", "self", "meta", "endless", "multi"})
+			form := Pick(r, []string{"inst", "inst", "inst", "self", "meta", "endless", "multi", "endless-multi", "twin"})
 			if isModule && form != "self" {
 				form = Pick(r, []string{"inst", "self"})
 			}
@@ -99,6 +110,28 @@ func genDefs(r *RNG) *dCase {
 				m.Vis = vis
 				m.Row = row()
 				emit("  def " + m.Name + "(a = 1) = " + ret)
+			case "endless-multi":
+				// an endless def whose parameter list spans rows: its row is the def's
+				m.Name = newName("xm")
+				m.Vis = vis
+				m.Row = row()
+				emit("  def " + m.Name + "(a = 1,")
+				emit("        b = 2) = " + ret)
+			case "twin":
+				// an instance method and a class method of one name: each call hovers its own
+				m.Name = newName("tw")
+				m.Vis = vis
+				m.Row = row()
+				emit("  def " + m.Name + "(a = 1)")
+				emit("    " + ret)
+				emit("  end")
+				twin := dMethod{Class: cname, Name: m.Name, Static: true, Vis: "public", Form: "twin-static"}
+				twin.Row = row()
+				emit("  def self." + m.Name + "(a = 1, b = 2, c = 3)")
+				emit("    " + ret)
+				emit("  end")
+				dc.Methods = append(dc.Methods, twin)
+				topCalls = append(topCalls, pending{len(dc.Methods) - 1, cname + "." + m.Name})
 			case "multi":
 				m.Name = newName("mm")
 				m.Vis = vis
@@ -288,20 +321,31 @@ func judgeDefs(c *CheckCtx, rn Runner, dc *dCase) *Violation {
 				continue
 			}
 			c.Event("hovers_judged", 1)
-			var line string
-			for _, l := range strings.Split(hout, "\n") {
-				if strings.HasPrefix(l, "%") {
-					line = l
-					break
-				}
-			}
 			wantPrefix := "%" + m.Name + ":::" + m.Class + "." + m.Name + "("
 			if m.Class == "" {
 				wantPrefix = "%" + m.Name + ":::" + m.Name + "("
 			}
+			// the called method's own signature must be shown (two methods may share
+			// class and name: an instance and a class method; they differ in arity)
+			var line string
+			found := false
+			for _, l := range strings.Split(hout, "\n") {
+				if !strings.HasPrefix(l, "%") {
+					continue
+				}
+				if line == "" {
+					line = l
+				}
+				if strings.HasPrefix(l, wantPrefix) {
+					rest := l[len(wantPrefix):]
+					if end := strings.Index(rest, ") -> "); end >= 0 && len(splitTop(rest[:end])) == m.nParams() {
+						found = true
+					}
+				}
+			}
 			feat := m.Form + ":" + m.Vis
-			if !strings.HasPrefix(line, wantPrefix) {
-				return mk("hover-wrong-method:"+feat, fmt.Sprintf("--hover --row=%d (a call of %s.%s) prints %q", cr, m.Class, m.Name, line), hout)
+			if !found {
+				return mk("hover-wrong-method:"+feat, fmt.Sprintf("--hover --row=%d (a call of %s.%s, %d parameter(s)) shows %q", cr, m.Class, m.Name, m.nParams(), line), hout)
 			}
 		}
 	}
